@@ -735,6 +735,21 @@ func (v *MaryTransactionOutputValue) UnmarshalCBOR(data []byte) error {
 	if _, err := cbor.Decode(data, &tmp); err != nil {
 		return err
 	}
+	// Asset quantities in an output value are unsigned 64-bit integers
+	// (only the mint field may carry negative quantities)
+	if tmp.Assets != nil {
+		for _, policyId := range tmp.Assets.Policies() {
+			for _, assetName := range tmp.Assets.Assets(policyId) {
+				qty := tmp.Assets.Asset(policyId, assetName)
+				if qty != nil && (qty.Sign() < 0 || !qty.IsUint64()) {
+					return fmt.Errorf(
+						"invalid asset quantity %s in transaction output value: must be in the range 0..2^64-1",
+						qty.String(),
+					)
+				}
+			}
+		}
+	}
 	*v = MaryTransactionOutputValue(tmp)
 	return nil
 }
